@@ -238,8 +238,10 @@ def spawn_execs(ctx):
         for streams in range(8):
             if form in (0, 3) and streams:
                 continue
-            for env in (0, 1):
+            for env in (0, 1, 2, 3):
                 for size in sizes:
+                    if env >= 2 and size != sizes[(i + env) % len(sizes)]:
+                        continue            # the unusual environments once per form x streams
                     if not streams and size != sizes[i % len(sizes)]:
                         continue            # without redirection the payload size plays no role
                     code = codes[i % len(codes)]
@@ -252,7 +254,7 @@ def spawn_execs(ctx):
     for form in forms:
         for code in codes:
             for args in (PLAINSETS if form >= 3 else ARGSETS):
-                ex.append(["spawn %d %d %d %d 1 1 1 %s" % (form, 0 if form in (0, 3) else 1, code % 2, code,
+                ex.append(["spawn %d %d %d %d 1 1 1 %s" % (form, 0 if form in (0, 3) else 1, code % 4, code,
                                                           " ".join(hexs(a) for a in args))])
     if ctx.quick:
         big = [e for e in ex if " 200000 " in e[0] or " 65536 " in e[0] or " 65535 " in e[0]]
